@@ -1,0 +1,9 @@
+//go:build !verif
+
+// Package verifhook provides named instrumentation points for the external
+// verification harness. Without the "verif" build tag every function is an empty
+// stub that the compiler inlines away.
+package verifhook
+
+// Point marks a named location between two critical sections.
+func Point(name string) {}
